@@ -65,6 +65,23 @@ class Real:
     def dtstr(self, dt):
         return self.np.dtype(dt).str
 
+    def get_json(self, p):
+        return json.load(open(self.path(p)))
+
+    def set_json(self, p, obj=None, text=None):
+        with open(self.path(p), 'w') as f:
+            f.write(text if text is not None else json.dumps(obj))
+
+    def remove(self, p):
+        os.remove(self.path(p))
+
+    def resize(self, p, delta):
+        fp = self.path(p)
+        if delta > 0:
+            open(fp, 'ab').write(b'\0' * delta)
+        else:
+            os.truncate(fp, os.path.getsize(fp) + delta)
+
 
 class Model:
     kind = 'model'
@@ -183,6 +200,27 @@ class Model:
 
     def dtstr(self, dt):
         return symnp.dtype(dt).str
+
+    def get_json(self, p):
+        return json.loads(json.dumps(self.world.lookup(self.path(p)).text.obj))
+
+    def set_json(self, p, obj=None, text=None):
+        node = self.world.lookup(self.path(p))
+        if text is not None:
+            node.text = text
+        else:
+            node.text = symfs.JsonDoc(obj)
+
+    def remove(self, p):
+        symfs.unlink(self.path(p))
+
+    def resize(self, p, delta):
+        node = self.world.lookup(self.path(p))
+        n = node.bin.length()
+        if delta > 0:
+            node.bin = node.bin.concat(Seq.of(('Z',), delta))
+        else:
+            node.bin = node.bin.cut(0, n + delta)
 
 
 def attempt(B, tag, fn):
@@ -476,8 +514,57 @@ def metadata(B):
     attempt(B, 'ro', lambda: fresh.metadata.update({'x': 1}))
 
 
+def baddescr(B):
+    d = B.darr
+    cases = [
+        ('nokey', lambda js: js.pop('shape')), ('nokey2', lambda js: js.pop('byteorder')),
+        ('numtype', lambda js: js.update(numtype='int24')), ('numtype2', lambda js: js.update(numtype=5)),
+        ('bo', lambda js: js.update(byteorder='middle')), ('order', lambda js: js.update(arrayorder='K')),
+        ('ver', lambda js: js.update(darrversion='not a version')),
+        ('newer', lambda js: js.update(darrversion='99.0.0')),
+        ('shapef', lambda js: js.update(shape=[2.0, 2])), ('shapeb', lambda js: js.update(shape=[True, 2])),
+        ('shapeb0', lambda js: js.update(shape=[False, 2])),
+        ('shapeneg', lambda js: js.update(shape=[-3, 2])), ('shapenegneg', lambda js: js.update(shape=[-3, -2])),
+        ('shapes', lambda js: js.update(shape='ab')), ('shapei', lambda js: js.update(shape=3)),
+        ('shapen', lambda js: js.update(shape=[[3, 2]])), ('isize', lambda js: js.update(numtype='int64')),
+        ('forder', lambda js: js.update(arrayorder='F')),
+    ]
+    for tag, f in cases:
+        d.asarray(B.path(tag), B.arr('x' + tag, 3, (2,), 'int32', 'little'))
+        js = B.get_json(tag + '/arraydescription.json')
+        f(js)
+        B.set_json(tag + '/arraydescription.json', js)
+        attempt(B, 'open' + tag, lambda: d.Array(B.path(tag)))
+        attempt(B, 'openrw' + tag, lambda: d.Array(B.path(tag), accessmode='r+'))
+        attempt(B, 'dopen' + tag, lambda: d.open(B.path(tag)))
+        attempt(B, 'del' + tag, lambda: d.delete_array(B.path(tag)))
+        attempt(B, 'tr' + tag, lambda: d.truncate_array(B.path(tag), 1))
+        B.obs.append(('dump' + tag, sorted(B.dump(tag) or [])))
+    for tag, txt in (('txt', 'not json'), ('empty', ''), ('list', '[1, 2]'), ('num', '5')):
+        d.asarray(B.path(tag), B.arr('x' + tag, 3, (), 'float64', 'little'))
+        B.set_json(tag + '/arraydescription.json', text=txt)
+        attempt(B, 'open' + tag, lambda: d.Array(B.path(tag)))
+        attempt(B, 'dopen' + tag, lambda: d.open(B.path(tag)))
+        attempt(B, 'del' + tag, lambda: d.delete_array(B.path(tag)))
+    for tag, delta in (('long', 3), ('short', -1), ('short8', -8), ('long8', 8)):
+        d.asarray(B.path(tag), B.arr('x' + tag, 3, (), 'float64', 'little'))
+        B.resize(tag + '/arrayvalues.bin', delta)
+        attempt(B, 'open' + tag, lambda: d.Array(B.path(tag)))
+        attempt(B, 'tr' + tag, lambda: d.truncate_array(B.path(tag), 1))
+        B.obs.append(('dump' + tag, B.dump(tag)['arrayvalues.bin'][1][-6:]))
+    d.asarray(B.path('nofile'), B.arr('xn', 3, (), 'float64', 'little'))
+    B.remove('nofile/arraydescription.json')
+    attempt(B, 'opennofile', lambda: d.Array(B.path('nofile')))
+    attempt(B, 'dopennofile', lambda: d.open(B.path('nofile')))
+    d.asraggedarray(B.path('r'), [B.arr('r0', 2, (), 'float64', 'little')])
+    B.resize('r/values/arrayvalues.bin', 8)
+    attempt(B, 'ropen', lambda: d.RaggedArray(B.path('r')))
+    attempt(B, 'rdel', lambda: d.delete_raggedarray(B.path('r')))
+    attempt(B, 'rtr', lambda: d.truncate_raggedarray(B.path('r'), 0))
+
+
 SCENARIOS = {f.__name__: f for f in [array_basic, array_append, array_truncate, array_assign,
-                                        array_failappend, ragged_basic, ragged_fail, readonly, metadata]}
+                                        array_failappend, ragged_basic, ragged_fail, readonly, metadata, baddescr]}
 
 
 def run(names, stub_readme=True):
